@@ -72,19 +72,60 @@ def install(ctx):
 
     def write_post(self, info, result):
         ctx.event('FitInfoFile.write:post')
-        try:
-            WRITE_ENDS.append(int(self._handle.tell()))
-        except Exception:
-            WRITE_ENDS.append(None)
+        pos = None
+        if COUNT['active'] and COUNT['bytes'] > 0:
+            pos = int(COUNT['bytes'])          # bytes handed to the output file so far (public boundary: the module's open())
+        else:
+            try:
+                pos = int(self._handle.tell())   # fallback: the writer's own handle (private; may not exist after a refactor)
+            except Exception:
+                pos = None
+        WRITE_ENDS.append(pos)
         return True
 
     probe.attach(FitInfoFile, 'write', ensure=write_post)
 
 
+COUNT = {'active': False, 'bytes': 0, 'path': None}
+
+
+class _CountingHandle(object):
+    def __init__(self, real):
+        self.real = real
+
+    def write(self, b):
+        COUNT['bytes'] += len(bytes(b))
+        return self.real.write(b)
+
+    def __getattr__(self, k):
+        return getattr(self.real, k)
+
+    def __enter__(self):
+        return self
+
+    def __exit__(self, *a):
+        return self.real.__exit__(*a)
+
+
 def observed_record_ends(fn, *a, **k):
     """run fn (which writes one fit file through the code under test) and return (result, record end offsets)"""
+    import sedfitter.fit_info as fi
     del WRITE_ENDS[:]
-    res = fn(*a, **k)
+    COUNT.update(active=True, bytes=0)
+
+    def counting_open(p, mode='r', *aa, **kk):
+        f = open(p, mode, *aa, **kk)
+        if ('w' in mode or 'a' in mode or '+' in mode) and str(p).endswith('fit.out'):
+            COUNT['bytes'] = 0
+            return _CountingHandle(f)
+        return f
+
+    fi.open = counting_open
+    try:
+        res = fn(*a, **k)
+    finally:
+        del fi.open
+        COUNT['active'] = False
     ends = list(WRITE_ENDS)
     del WRITE_ENDS[:]
     return res, ends
@@ -155,7 +196,7 @@ def run(ctx):
                 'strace of the output fd. a case = one truncated read; non-trivial = offset beyond the metadata')
     ctx.exhaustive = True
     ctx.extra['exhaustive_subspace'] = 'truncation offsets 0..len-1 of every generated file'
-    ctx.assume('a crash leaves a byte prefix of the file (supported by the strace observation: only sequential write()s on the output fd, no seek/truncate/rename)',
+    ctx.assume('a crash leaves a byte prefix of the file' + (' (supported by the strace observation of the thorough tier: only sequential write()s on the output fd, no seek/truncate/rename)' if not ctx.quick else ' (append-only writing is observed by the strace run of the thorough tier, not in this tier)'),
                'the end offset of every record is observed at the writing boundary (position of the output handle after each FitInfoFile.write), so nothing is assumed about the on-disk layout', 'a clean end after fewer records than were complete is an exact prefix and is accepted')
     ctx.require_events('truncated-read', 'outcome:exception', 'outcome:clean-end', 'enospc-run', 'enospc:prefix-on-disk', 'FitInfoFile.write:post')
     ctx.require_regimes('with-fluxes', 'without-fluxes', 'records=1', 'records>=3', 'cut:before-first-record-complete', 'cut:in-later-record', 'cut:on-boundary',
@@ -255,11 +296,13 @@ def run(ctx):
                     seen['writes'] += 1
                     if len(b) > self.left:
                         seen['failed'] = True
+                        COUNT['bytes'] += self.left
                         self.real.write(b[:self.left])
                         self.left = 0
                         self.real.flush()
                         raise OSError(errno.ENOSPC, 'No space left on device (injected)')
                     self.left -= len(b)
+                    COUNT['bytes'] += len(b)
                     return self.real.write(b)
 
                 def __getattr__(self, k):
@@ -276,6 +319,7 @@ def run(ctx):
                 try:
                     if stale:
                         del WRITE_ENDS[:]
+                        COUNT.update(active=True, bytes=0)
                         fo_ = fi.FitInfoFile(out2, 'w')
                         for inf_ in infos_full:
                             fo_.write(inf_)
@@ -283,11 +327,18 @@ def run(ctx):
                     else:
                         fit(**kw2)
                     raised = False
-                except OSError:
+                except Exception:          # any error reported to the caller counts
                     raised = True
             finally:
                 del fi.open
-            ends_here = [e for e in WRITE_ENDS if e is not None] if stale else rec_ends
+                COUNT['active'] = False
+            if stale and any(e is None for e in WRITE_ENDS):
+                ctx.inconclusive('write-side observation failed in the overwrite run (no record end positions)')
+                del WRITE_ENDS[:]
+                if os.path.exists(out2):
+                    os.remove(out2)
+                continue
+            ends_here = list(WRITE_ENDS) if stale else rec_ends
             del WRITE_ENDS[:]
             ctx.event('enospc-run')
             import gc
@@ -325,10 +376,12 @@ def run(ctx):
         prev_blob = open(path, 'rb').read()
         ctx.rmdir(d)
 
-    if not ctx.quick and ctx.shard < 4:
-        sigkill_runs(ctx, rng)
-    if not ctx.quick and ctx.shard == 4:
-        strace_run(ctx, rng)
+    if not ctx.quick:
+        ctx.require_events('sigkill-run', 'strace-run')
+        if ctx.shard < 4:
+            sigkill_runs(ctx, rng)
+        if ctx.shard == min(4, ctx.nshards - 1):
+            strace_run(ctx, rng)
 
 
 CHILD = r'''
